@@ -24,10 +24,11 @@ Characters the statement is silent about (other CTLs, non-token names that a cli
 back as the intended name) are labelled, not failed.  The strict reader ``httpref.parse_responses`` is
 run on every response; a disagreement with the lenient reader must be explained by such a character.
 
-Open findings on the current tree (known_findings.d/C07.json, findings_inbox/C07-*.md):
+Findings of this check (the first three are repaired in /repo since; the fourth is open):
   * C07.no_response.cookie_line_unencodable (F7): cookie APIs accept text that cannot be sent; hang.
   * C07.set_header_name_not_token: set_header does not validate names (NUL / ':' on the wire, late failure).
   * C07.nul_on_wire.lowlevel: write_headers' last-line guard lets NUL through.
+  * C07.name_case_folded_to_ascii.lowlevel (open): HTTPHeaders()["\u017fet-Cookie"] = v is written as "Set-Cookie: v".
 With the three proposed patches applied to a scratch copy the check is quiet without any exclusion.
 
 Sensitivity (scratch copies, quick tier, seed 1):
@@ -41,6 +42,17 @@ Sensitivity (scratch copies, quick tier, seed 1):
   * web.py cookie finalisation moved from flush() into finish()'s not-yet-written section              -> caught at seeds
     1,2,3 (intended_line_missing for every cookie api in the streaming shape STREAM200 = write; flush(); write; finish()).
     Missed before: no shape flushed before finish().
+  * httputil.py HTTPHeaders.add runs the token check on the case-NORMALISED name: add_header("\u017fet-Cookie", v)
+    is accepted and serialised as a genuine Set-Cookie line (also Kelvin sign -> k, dotless i -> I, sharp s -> Ss,
+    fi-ligature -> Fi) -> caught at seeds 1,2,3 (intended_line_differs on add_header_name; replays, sweep and
+    exploration).  Missed before: no payload contained a character whose Unicode case mapping is ASCII, and the expected
+    name was computed with str.lower() (which itself maps Kelvin -> k).  Names are now compared up to ASCII case only
+    (ascii_lower / _fold: a non-ASCII character may change its own case but never become ASCII letters); the alphabet has
+    a FOLDS group (U+017F U+212A U+0131 U+0130 U+FF21 U+FB01 U+00DF U+212B U+00B5), 15 NAME_TRICKS ("\u017fet-Cookie",
+    "Tran\u017ffer-Encoding", "Locat\u0131on" ...) and the sweep runs tricks and token-shaped-once-folded names
+    through set_header / add_header / set_cookie / set_signed_cookie / clear_cookie names and the low layer.
+    The stricter rule exposed the same folding on the low layer of the real tree (open finding
+    C07.name_case_folded_to_ascii.lowlevel, findings_inbox/C07-header-name-unicode-case-fold.md).
 Not implemented from DESIGN: `expires` as an injection position (the documented types float/tuple/datetime
 carry no text); header values as int/datetime (no payload can be carried).
 """
@@ -96,7 +108,13 @@ SEPS = ":;,=\"\\< "
 HIGH = "\xe9\xff\xa0"
 TRUNC = "\u010a\u010d\u0100\u560a"   # low byte is LF / CR / NUL / LF
 WIDE = "\u2603\U0001f600"
-ALPHABET = CTL + SEPS + HIGH + TRUNC + WIDE
+# characters that Python's case mappings turn into ASCII letters (long s, Kelvin sign, dotless i, dotted I,
+# fullwidth A, fi-ligature, sharp s, Angstrom sign, micro sign)
+FOLDS = "\u017f\u212a\u0131\u0130\uff21\ufb01\xdf\u212b\xb5"
+NAME_TRICKS = ["\u017fet-Cookie", "Set-Cookie\u017f"[:-1] + "", "\u017fet-cookie", "Content-Length".replace("L", "\u2113"),
+               "Tran\u017ffer-Encoding", "X-\u212a", "\u212aeep-Alive", "x-\u0131njected", "X-\u0130d", "\ufb01-x", "X-\ufb01",
+               "\xdfet-Cookie", "\uff33et-Cookie", "Locat\u0131on", "\u017ferver"]
+ALPHABET = CTL + SEPS + HIGH + TRUNC + WIDE + FOLDS
 
 # --------------------------------------------------------------------------- the application
 CUR = {}
@@ -280,10 +298,30 @@ def reason_bytes(p):
     return {p.encode("latin-1", "replace"), p.encode("utf-8")}
 
 
+def ascii_lower(name):
+    """Lower-case the ASCII letters only (HTTP field names are case-insensitive in ASCII, nothing else)."""
+    return "".join(chr(ord(c) + 32) if "A" <= c <= "Z" else c for c in name)
+
+
 def _fold(name):
-    """Case-insensitive key for header names, robust to the Unicode case mappings str.capitalize()
-    applies (dotless i -> I, long s -> S, Kelvin sign -> k, sharp s -> Ss): letters only, never separators."""
-    return name.upper().casefold()
+    """Comparison key for header names: equal up to ASCII case.  A non-ASCII character may change its own
+    case (e-acute <-> E-acute stays non-ASCII) but must never turn into ASCII letters: str.capitalize()/lower()
+    map U+017F long s -> S, U+212A Kelvin -> k, U+0131 dotless i -> I, sharp s -> Ss, U+FB01 fi-ligature -> Fi,
+    which would make a name that cannot exist come out as a different, valid one (e.g. Set-Cookie)."""
+    out = []
+    for c in name:
+        if ord(c) < 128:
+            out.append(ascii_lower(c))
+        else:
+            cf = c.casefold()
+            out.append(cf if all(ord(x) >= 128 for x in cf) else c)
+    return "".join(out)
+
+
+def folds_to_ascii(name):
+    """Does any non-ASCII character of `name` have an ASCII image under Python's case mappings?"""
+    return any(ord(c) >= 128 and any(ord(x) < 128 for x in c.upper() + c.lower() + c.title() + c.casefold())
+               for c in name)
 
 
 def header_safe(s):
@@ -362,8 +400,8 @@ def evaluate(api, shape, payload):
     got = header_list(r)
     if got is None:
         return problem("C07.date_header_format")
-    if b"injected" in [n for n, _ in got] and not (api == "low_name" and text.lower().startswith("injected")) \
-            and not (api.endswith("_name") and text.lower() == "injected"):
+    if b"injected" in [n for n, _ in got] and not (api == "low_name" and ascii_lower(text).startswith("injected")) \
+            and not (api.endswith("_name") and ascii_lower(text) == "injected"):
         return problem("C07.injected_header_line", {"headers": got})
 
     # ---- raised: Tornado's error response, equal to the baseline error response
@@ -437,7 +475,7 @@ def evaluate(api, shape, payload):
             if api == "low_value":
                 value = text.encode("latin-1").strip(b" \t")
             elif api == "low_name":
-                name = text.lower().encode("latin-1", "replace")
+                name = ascii_lower(text).encode("latin-1", "replace")
             else:
                 want_reason = text.encode("utf-8")
             intended = [(name, value)]
@@ -450,9 +488,10 @@ def evaluate(api, shape, payload):
                 return problem("C07.extra_header_line", {"lines": r.lines})
             ln = others[0]
             tail = b": " + raw_value
-            # (HTTPHeaders normalises the case of names, for non-ASCII letters too: compare casefolded)
+            # (HTTPHeaders normalises the case of names: equal up to ASCII case, see _fold)
             if not ln.endswith(tail) or _fold(ln[:-len(tail)].decode("latin-1")) != _fold(raw_name):
-                return problem("C07.intended_line_differs", {"line": ln, "want": (raw_name, raw_value)})
+                sig = "C07.name_case_folded_to_ascii.lowlevel" if api == "low_name" and folds_to_ascii(text) else None
+                return problem("C07.intended_line_differs", {"line": ln, "want": (raw_name, raw_value)}, sig)
             intended = "raw-checked"
             explain_strict = not header_safe(text) or (api == "low_name" and not wu.is_token(text)) \
                 or (api == "low_reason" and text == "")
@@ -467,7 +506,8 @@ def evaluate(api, shape, payload):
                         vals.append(text.encode("latin-1").strip(b" \t"))
                 intended = [(b"x-test", vals)]
             elif api in ("set_header_name", "add_header_name"):
-                intended = [(text.lower().encode("latin-1", "replace"), b"v")]
+                # the emitted name must be the requested one up to ASCII case (no Unicode case mapping)
+                intended = [(ascii_lower(text).encode("latin-1", "replace"), b"v")]
                 explain_strict = not wu.is_token(text)
             else:
                 intended = "cookie"
@@ -475,6 +515,12 @@ def evaluate(api, shape, payload):
             return problem("C07.status_line", {"code": r.code, "reason": r.reason})
         if r.body != body:
             return problem("C07.body_changed", {"body": r.body[:300]})
+        if api in ("set_header_name", "add_header_name") and ascii_lower(text).encode("latin-1", "replace") in [n for n, _ in base]:
+            # the requested name is one of the default headers (Server, Date, Content-Type ...): replacing /
+            # duplicating it is the documented effect of set_header / add_header, not an injection; only the
+            # universal clauses (already checked above) apply
+            labels.add("name_is_a_default_header")
+            return labels, None
         extra = list(got)
         for hv in base:
             if hv in extra:
@@ -571,7 +617,9 @@ def _payload():
     shaped = st.builds(lambda b, s, t: b + s + t, benign, sep, tail)
     free = st.text(alphabet=st.one_of(st.sampled_from(ALPHABET + "abAB-1"),
                                       st.characters(exclude_categories=("Cs",), max_codepoint=0x2FF)), max_size=8)
-    return st.one_of(shaped, shaped, free)
+    folded = st.builds(lambda b, c, t: b + c + t, st.sampled_from(["", "X-", "x", "Set-Cooki"]), st.sampled_from(FOLDS),
+                       st.sampled_from(["", "x", "-B", "et-Cookie"]))
+    return st.one_of(shaped, shaped, free, st.sampled_from(NAME_TRICKS), folded)
 
 
 def _encode(api, as_bytes, p):
@@ -590,12 +638,23 @@ case_s = st.builds(
 
 QUICK_CPS = sorted(set(list(range(0, 0x21)) + [0x22, 0x2C, 0x3A, 0x3B, 0x3C, 0x3D, 0x5C, 0x7F, 0x80, 0x85, 0xA0, 0xAD,
                                                0xFF, 0x100, 0x10A, 0x10D, 0x2028, 0x2029, 0x560A, 0xFEFF, 0x2603,
+                                               0xDF, 0xB5, 0x130, 0x131, 0x17F, 0x212A, 0x212B, 0xFB01, 0xFF21, 0xFF53,
                                                0x1F600]))
 THOROUGH_CPS = sorted(set(list(range(0, 0x300)) + QUICK_CPS + [0x3000, 0xFF1A, 0xFF1B, 0xE000, 0xFFFD, 0x10FFFF]))
 
 
+NAME_APIS = ["set_header_name", "add_header_name", "cookie_name", "signed_name", "clear_name", "low_name"]
+
+
 def sweep_cases(thorough):
     cps = THOROUGH_CPS if thorough else QUICK_CPS
+    for api in NAME_APIS:
+        for trick in NAME_TRICKS:
+            for shape in (["GET200"] if api == "low_name" else ["GET200", "HEAD200", "STREAM200"]):
+                yield (api, shape, trick)
+        for c in FOLDS:  # token-shaped once folded: start / middle / end of an otherwise valid name
+            for p in (c + "et-x", "X-" + c + "b", "X-B" + c, c):
+                yield (api, "GET200", p)
     for api in APIS:
         for cp in cps:
             ch = chr(cp)
